@@ -52,44 +52,62 @@ theorem ethrow_eq {ε α} (e : ε) : (throw e : Except ε α) = Except.error e :
 
 theorem ebind_congr {ε α β} {x x' : Except ε α} (f : α → Except ε β) (h : x = x') : (x >>= f) = (x' >>= f) := by rw [h]
 
+theorem ebind_ite_congr {ε α β} (c : Prop) [Decidable c] (A B : Except ε α) (f : α → Except ε β)
+    (eA eB : Except ε β) (hA : c → (A >>= f) = eA) (hB : ¬ c → (B >>= f) = eB) :
+    ((if c then A else B) >>= f) = if c then eA else eB := by
+  by_cases h : c
+  · rw [if_pos h, if_pos h]; exact hA h
+  · rw [if_neg h, if_neg h]; exact hB h
+
+open Lean Meta Simp in
+/-- `x >>= f` for an `x` that is already simplified: substitute the value and simplify the
+    continuation (`ok`), stop (`error`), or do both branches of an `if` separately (under the
+    hypothesis of the branch, each branch of `x` is *not* traversed again).  Returns the result and a
+    proof of `x >>= f = result`. -/
+partial def bindGo (x f : Expr) : SimpM (Expr × Expr) := do
+  if x.isAppOfArity ``Except.ok 3 then
+    let v := x.appArg!
+    let pf ← mkAppM ``ebind_ok #[v, f]
+    let r ← Simp.simp (mkApp f v).headBeta
+    match r.proof? with
+    | none => return (r.expr, pf)
+    | some p => return (r.expr, ← mkEqTrans pf p)
+  if x.isAppOfArity ``Except.error 3 then
+    let pf ← mkAppM ``ebind_err #[x.appArg!, f]
+    let some (_, _, rhs) := (← inferType pf).eq? | throwError "bindGo: unexpected type"
+    return (rhs, pf)
+  if x.isAppOfArity ``ite 5 then
+    let args := x.getAppArgs
+    let c := args[1]!
+    let (eA, pA) ← withLocalDeclD `h c fun h => Simp.withFreshCache do
+      let (e, p) ← bindGo args[3]! f
+      return (e, ← mkLambdaFVars #[h] p)
+    let (eB, pB) ← withLocalDeclD `h (mkNot c) fun h => Simp.withFreshCache do
+      let (e, p) ← bindGo args[4]! f
+      return (e, ← mkLambdaFVars #[h] p)
+    let pf ← withDefault <| mkAppOptM ``ebind_ite_congr
+      #[none, none, none, c, args[2]!, args[3]!, args[4]!, f, eA, eB, pA, pB]
+    let some (_, _, rhs) := (← inferType pf).eq? | throwError "bindGo: unexpected type"
+    return (rhs, pf)
+  -- stuck: the value is not known, keep the continuation unevaluated
+  let e ← mkAppM ``Bind.bind #[x, f]
+  return (e, ← mkEqRefl e)
+
 open Lean Meta Simp in
 /-- Pre-simproc for `x >>= f` in `Except`: evaluate `x` first and only then enter the continuation
-    (with the value substituted).  Keeps `simp` out of continuations whose argument is not known yet. -/
+    (with the value substituted).  Keeps `simp` out of continuations whose argument is not known yet,
+    so that symbolic execution runs front to back and visits every statement once per path. -/
 simproc_decl bindStep (Bind.bind _ _) := fun e => do
   let_expr Bind.bind m _ _ _ x f := e | return .continue
   let m ← whnfR m
   unless m.isAppOfArity ``Except 1 do return .continue
   let r ← Simp.simp x
-  let x' := r.expr
-  -- proof of  x >>= f = x' >>= f
-  let mkStep (rhs : Expr) (pf2 : Expr) : SimpM Simp.Result := do
-    match r.proof? with
-    | none => return { expr := rhs, proof? := some pf2 }
-    | some h =>
-      let c ← mkAppM ``ebind_congr #[f, h]
-      return { expr := rhs, proof? := some (← mkEqTrans c pf2) }
-  if x'.isAppOfArity ``Except.ok 3 then
-    let v := x'.appArg!
-    let pf ← mkAppM ``ebind_ok #[v, f]
-    let rhs := (mkApp f v).headBeta
-    return .visit (← mkStep rhs pf)
-  if x'.isAppOfArity ``Except.error 3 then
-    let err := x'.appArg!
-    let pf ← mkAppM ``ebind_err #[err, f]
-    let some (_, _, rhs) := (← inferType pf).eq? | return .continue
-    return .done (← mkStep rhs pf)
-  if x'.isAppOfArity ``ite 5 then
-    let args := x'.getAppArgs
-    let pf ← withDefault <| mkAppOptM ``ebind_ite #[none, none, none, args[1]!, args[2]!, args[3]!, args[4]!, f]
-    let some (_, _, rhs) := (← inferType pf).eq? | return .continue
-    return .visit (← mkStep rhs pf)
-  -- stuck: keep the continuation unevaluated
+  let (rhs, pf) ← bindGo r.expr f
   match r.proof? with
-  | none => return .done { expr := e }
+  | none => return .done { expr := rhs, proof? := some pf }
   | some h =>
     let c ← mkAppM ``ebind_congr #[f, h]
-    let some (_, _, rhs) := (← inferType c).eq? | return .continue
-    return .done { expr := rhs, proof? := some c }
+    return .done { expr := rhs, proof? := some (← mkEqTrans c pf) }
 
 theorem bind_ok {α β} (a : α) (f : α → M β) : (Except.ok a >>= f) = f a := rfl
 theorem bind_err {α β} (e : Err) (f : α → M β) : ((Except.error e : M α) >>= f) = Except.error e := rfl
@@ -295,7 +313,7 @@ macro "py_side" : tactic =>
 open VelaVerif.PyRt in
 /-- symbolic execution of translated definitions; the argument lists the definitions to unfold -/
 macro "py_exec" "[" defs:Lean.Parser.Tactic.simpLemma,* "]" : tactic =>
-  `(tactic| simp (disch := py_side) only [$defs,*, ↓bindStep,
+  `(tactic| set_option linter.unusedSimpArgs false in simp (maxSteps := 4000000) (disch := py_side) only [$defs,*, ↓bindStep,
       bind_ok, bind_err, pure_eq, bind_ite, ebind_ok, ebind_err, epure_eq, ebind_ite, ethrow_eq, pyAssert_true, pyAssert_false, pyAssert_decide,
       castErr_py, castErr_i32, castErr_i64, wrap_eq_self, wrap_py, wrap_i8, wrap_i16, wrap_i32, wrap_i64, wrap_u8, wrap_u16, wrap_u32, coerce2_py_py, coerce2_py_np, coerce2_np_py, coerce2_np_np, promote,
       add_mk, sub_mk, mul_mk, and_mk, or_mk, xor_mk, floordiv_mk, mod_mk, shl_mk, shr_mk, pow_mk,
@@ -310,11 +328,34 @@ macro "py_exec" "[" defs:Lean.Parser.Tactic.simpLemma,* "]" : tactic =>
       Int.reduceLT, Int.reduceLE, Int.reduceGT, Int.reduceGE, Int.reduceEq, Int.reduceNe, Int.reduceDiv, Int.reduceMod,
       Int.one_mul, Int.mul_one, Int.zero_add, Int.add_zero, Int.sub_zero])
 
+open Lean Elab Tactic Meta in
+/-- case split on the condition of the outermost-leftmost `if` of the goal and rewrite *every* `if`
+    on that condition (the translated source and the model branch on the same conditions, so both
+    sides follow the same path) -/
+elab "py_split1" : tactic => withMainContext do
+  let g ← getMainGoal
+  let t ← instantiateMVars (← g.getType)
+  let some e := t.find? (fun e => e.isAppOfArity ``ite 5 && !(e.getArg! 1).hasLooseBVars)
+    | throwError "py_split1: no if-then-else in the goal"
+  let cs ← Term.exprToSyntax (e.getArg! 1)
+  evalTactic (← `(tactic| by_cases hsplit : $cs))
+  let gs ← getGoals
+  match gs with
+  | g1 :: g2 :: rest =>
+    setGoals [g1]
+    evalTactic (← `(tactic| try simp only [eq_true hsplit, if_true, ite_true, not_true_eq_false, if_false, ite_false]))
+    let r1 ← getGoals
+    setGoals [g2]
+    evalTactic (← `(tactic| try simp only [eq_false hsplit, if_false, ite_false, not_false_eq_true, if_true, ite_true]))
+    let r2 ← getGoals
+    setGoals (r1 ++ r2 ++ rest)
+  | _ => throwError "py_split1: unexpected goals"
+
 open VelaVerif.PyRt in
 /-- finish after `py_exec`: case split on the remaining `if`s, then linear integer arithmetic -/
 macro "py_finish" : tactic =>
   `(tactic| (
-    repeat' split
+    repeat' py_split1
     all_goals first
       | rfl
       | contradiction
@@ -322,4 +363,6 @@ macro "py_finish" : tactic =>
       | trivial
       | (simp only [wrap] at * <;> omega)
       | (simp only [Except.ok.injEq, Except.error.injEq, Num.mk.injEq, true_and, and_true, reduceCtorEq,
-          agrees_ok, agrees_err, agrees_ok_err, agrees_err_ok] <;> first | trivial | omega)))
+          agrees_ok, agrees_err, agrees_ok_err, agrees_err_ok] <;> first | trivial | omega)
+      | (simp only [Except.ok.injEq, Except.error.injEq, Num.mk.injEq, true_and, and_true, reduceCtorEq,
+          agrees_ok, agrees_err, agrees_ok_err, agrees_err_ok, wrap] at * <;> first | trivial | omega)))
